@@ -10,10 +10,14 @@ isolated nodes, singleton edges, multi-edges):
 * ``edge_positions`` — ``edge_positions_from_barycenters`` on integer-grid positions: keys = edge IDs, value = the exact
   mean of the members' positions.
 * ``draw`` — ``draw`` / ``draw_nodes`` / ``draw_hyperedges`` / ``draw_simplices`` (Agg backend) on integer-grid positions
-  (exact in float) with scalar / per-ID dict / list / array / stat-valued style arguments and several ``max_order``.
-  The collections are read back (``get_offsets``, ``get_segments``, ``get_paths``) and compared with the plan
-  computed by brute force from the members (the property predicate) and with the plan of the Lean model
-  (lean/XgiModel/C20/Draw.lean through Drivers/C20.lean).
+  (exact in float) with scalar / per-ID dict / list / array / stat-valued style arguments and several ``max_order``,
+  with an explicit ``ax`` and with the default ``ax=None`` (current axes).  The collections are read back
+  (``get_offsets``, ``get_segments``, ``get_paths``) and compared with the plan computed by brute force from the members
+  (the property predicate) and with the plan of the Lean model (lean/XgiModel/C20/Draw.lean through Drivers/C20.lean).
+  Per-element style arguments are read back too (sizes, line widths, face / edge colours, colour-mapped arrays): element
+  k must carry the value given for ITS id; per-ID dicts are built in shuffled order (and, for edge arguments, over all
+  edge IDs).  ``hull=True``: one hull per qualifying edge, enclosing every member position and nothing away from
+  them.  ``pos=None``: the markers define the positions, the lines / polygons must join exactly those.
 """
 import glob
 import inspect
@@ -21,6 +25,7 @@ import json
 import math
 import os
 import warnings
+from collections import Counter
 from fractions import Fraction
 
 import matplotlib
@@ -29,10 +34,11 @@ matplotlib.use("Agg")
 import matplotlib.pyplot as plt  # noqa: E402
 import networkx as nx  # noqa: E402
 import numpy as np  # noqa: E402
+from matplotlib.colors import to_rgba  # noqa: E402
 import xgi  # noqa: E402
 import xgi.drawing.layout as L  # noqa: E402
 
-from ..core import unlisted_violations  # noqa: E402
+from ..core import is_known, unlisted_violations  # noqa: E402
 from ..core import TRUSTED_COMMON, VERIF, build_and_audit, dec_id, enc_id, finish  # noqa: E402
 from ..fn import all_small_hypergraphs, conclude, gen_hypergraph, run_fn  # noqa: E402
 
@@ -130,7 +136,10 @@ def grid_pos(rng, nodes, collisions=False):
         chosen = rng.sample(pts, len(nodes))
     else:
         chosen = [rng.choice(pts[:9]) for _ in nodes]
-    return [[n, [int(p[0]), int(p[1])]] for n, p in zip(nodes, chosen)]
+    out = [[n, [int(p[0]), int(p[1])]] for n, p in zip(nodes, chosen)]
+    if rng.random() < 0.7:
+        rng.shuffle(out)   # the pos dict is a per-ID dict too: its key order need not be the order of H.nodes
+    return out
 
 
 def pos_dict(c):
@@ -215,32 +224,110 @@ PALETTE = ["red", "blue", "green", "orange", "purple", "black"]
 NODE_ARGS = ["node_size", "node_fc", "node_lw", "node_ec"]
 DYAD_ARGS = ["dyad_color", "dyad_lw"]
 EDGE_ARGS = ["edge_fc", "edge_ec"]
+COLOUR_ARGS = ("node_fc", "node_ec", "dyad_color", "edge_fc", "edge_ec")
 KINDS = ["scalar", "dict", "list", "array", "stat", "dictnum"]
+FLAGS = ("rescale_sizes", "dyad_style", "alpha", "node_shape")
+RESCALE = {"node_size": (5, 30), "node_lw": (0, 5), "dyad_lw": (1, 10)}   # documented defaults of `params`
 
 
-def style_value(arg, kind, ids, H, c):
-    """materialise a style argument of the given shape for the elements `ids` (deterministic)"""
-    n = len(ids)
-    colour = arg in ("node_fc", "node_ec", "dyad_color", "edge_fc", "edge_ec")
+def num_val(i):
+    """pairwise distinct numbers >= 1 (not readable as RGB(A) values) for up to ten elements"""
+    return 1 + (3 * i) % 5 + (0.5 if i % 2 else 0)
+
+
+def col_val(i):
+    return PALETTE[i % len(PALETTE)]
+
+
+def element_ids(c, arg):
+    """JSON ids of the elements a style argument refers to, in drawing-independent view order
+    (nodes / two-node edges / qualifying larger edges); for a complex the drawn edges have internal ids: positions"""
+    if arg.startswith("node"):
+        return list(c["H"]["nodes"])
+    if c["cls"] == "hg":
+        return [e for e, _ in (dyad_edges(c) if arg.startswith("dyad") else poly_edges(c))]
+    d, m = sc_expected(c)
+    return list(range(len(d if arg.startswith("dyad") else m)))
+
+
+def stat_raw(c, arg, ids):
+    """what the stat handed over by style_value holds for the elements, from the members alone"""
+    ms = {json.dumps(e): m for e, m in c["H"]["edges"]}
+    if arg.startswith("node"):
+        return [sum(1 for m in ms.values() if n in m) for n in ids]                      # degree
+    if arg.startswith("dyad"):
+        return [len(ms[json.dumps(e)]) - (0 if arg == "dyad_lw" else 1) for e in ids]     # size | order
+    return [len(ms[json.dumps(e)]) - (0 if arg == "edge_fc" else 1) for e in ids]
+
+
+def dict_items(c, arg):
+    """the (id, value) pairs of a per-ID dict argument, in the dict's own order"""
+    for a, items in c.get("dicts", []):
+        if a == arg:
+            return items
+    kind = c["style"][arg]     # cases written before dicts were made explicit: element order
+    ids = element_ids(c, arg)
+    colour = arg in COLOUR_ARGS and kind == "dict"
+    return [[i, col_val(k) if colour else num_val(k)] for k, i in enumerate(ids)]
+
+
+def style_raw(c, arg):
+    """the value the statement gives to each drawn element, in view order (None: one scalar for all)"""
+    kind = c["style"][arg]
+    ids = element_ids(c, arg)
+    if kind == "scalar":
+        return None
+    if kind in ("dict", "dictnum"):
+        D = {json.dumps(k): v for k, v in dict_items(c, arg)}
+        return [D[json.dumps(i)] for i in ids]
+    if kind == "list":
+        return [col_val(k) if arg in COLOUR_ARGS else num_val(k) for k in range(len(ids))]
+    if kind == "array":
+        return [num_val(k) for k in range(len(ids))]
+    if kind == "stat":
+        return stat_raw(c, arg, ids) if (c["cls"] == "hg" or arg.startswith("node")) else None
+    raise KeyError(kind)
+
+
+def style_value(arg, kind, H, c):
+    """materialise a style argument of the given shape (deterministic from the case)"""
+    colour = arg in COLOUR_ARGS
     if kind == "scalar":
         return {"node_size": 11, "node_lw": 2, "dyad_lw": 3}.get(arg, "tab:blue" if colour else 2)
-    nums = [1 + (3 * i) % 5 + (0.5 if i % 2 else 0) for i in range(n)]
-    cols = [PALETTE[(2 * i + 1) % len(PALETTE)] for i in range(n)]
-    if kind == "dict":
-        return dict(zip(ids, cols if colour else nums))
-    if kind == "dictnum":
-        return dict(zip(ids, nums))
+    if kind in ("dict", "dictnum"):
+        return {dec_id(k): v for k, v in dict_items(c, arg)}
     if kind == "list":
-        return cols if colour else nums
+        return list(style_raw(c, arg))
     if kind == "array":
-        return np.array(nums, dtype=float)
+        return np.array(style_raw(c, arg), dtype=float)
     if kind == "stat":
         if arg.startswith("node"):
             return H.nodes.degree
         if arg.startswith("dyad"):
-            return H.edges.filterby("order", 1).size if (arg == "dyad_lw" or not ids) else H.edges.order
+            return H.edges.filterby("order", 1).size if (arg == "dyad_lw" or not element_ids(c, arg)) else H.edges.order
         return H.edges.size if arg == "edge_fc" else H.edges.order
     raise KeyError(kind)
+
+
+def gen_dicts(rng, c):
+    """explicit per-ID dicts for the dict-valued arguments of the case: one entry per element — for edge arguments of a
+    hypergraph sometimes one entry per edge of the network ("must contain (edge_id: value) pairs") —, in SHUFFLED order"""
+    out = []
+    for arg, kind in list(c["style"].items()):
+        if kind not in ("dict", "dictnum"):
+            continue
+        ids = element_ids(c, arg)
+        colour = arg in COLOUR_ARGS and kind == "dict"
+        items = [[i, col_val(k) if colour else num_val(k)] for k, i in enumerate(ids)]
+        if c["cls"] == "hg" and not arg.startswith("node") and ids and rng.random() < 0.4:
+            have = {json.dumps(i) for i in ids}
+            rest = [e for e, _ in c["H"]["edges"] if json.dumps(e) not in have]
+            items += [[e, col_val(len(ids) + k) if colour else num_val(len(ids) + k)] for k, e in enumerate(rest)]
+            if arg == "dyad_lw" and rest:
+                c["style"]["rescale_sizes"] = False   # widths are rescaled between the min / max of what is handed over
+        rng.shuffle(items)
+        out.append([arg, items])
+    return out
 
 
 def gen_style(rng, c):
@@ -265,7 +352,7 @@ def gen_style(rng, c):
         if n >= 1:
             kinds += ["list", "array"] if a not in ("node_ec", "edge_ec") else ["list"]
             if cls == "hg" or a.startswith("node"):
-                kinds += ["dict", "stat"] if a not in ("node_ec",) else []
+                kinds += ["dict", "dict", "stat"] if a not in ("node_ec",) else []
                 if a in ("node_fc", "dyad_color", "edge_fc"):
                     kinds += ["dictnum"]
             if a == "node_ec":
@@ -288,22 +375,151 @@ def gen_style(rng, c):
 
 def style_kwargs(c, H):
     kw = {}
-    nodes = list(H.nodes)
-    if c["cls"] == "hg":
-        dy = [dec_id(e) for e, _ in dyad_edges(c)]
-        po = [dec_id(e) for e, _ in poly_edges(c)]
-    else:
-        d, m = sc_expected(c)
-        dy, po = list(range(len(d))), list(range(len(m)))
     for a, kind in c.get("style", {}).items():
-        if a in ("rescale_sizes", "dyad_style", "alpha", "node_shape"):
+        if a in FLAGS:
             kw[a] = kind
         elif a == "edge_lw":
             kw[a] = 2
         else:
-            ids = nodes if a.startswith("node") else dy if a.startswith("dyad") else po
-            kw[a] = style_value(a, kind, ids, H, c)
+            kw[a] = style_value(a, kind, H, c)
     return kw
+
+
+# ----------------------------------------------------------------------------- style read-back
+
+def rgb(x):
+    return [round(float(v), 6) for v in to_rgba(x)[:3]]
+
+
+def interp(vals, arg, c):
+    """`rescale_sizes`: linear interpolation between the min and max of the values handed over (documented)"""
+    if not vals or not c.get("style", {}).get("rescale_sizes", True):
+        return [float(v) for v in vals]
+    lo, hi = RESCALE[arg]
+    return [float(v) for v in np.interp(vals, [min(vals), max(vals)], [lo, hi])]
+
+
+def render(c, arg, raw):
+    """what the collections must hold for per-element raw values: ("num", floats) | ("rgb", rows)"""
+    if arg in COLOUR_ARGS:
+        if all(isinstance(v, str) for v in raw):
+            return "rgb", [rgb(v) for v in raw]
+        if len(raw) in (3, 4) and all(0 <= float(v) <= 1 for v in raw):
+            raise ValueError("three or four numbers within [0, 1] are one RGB(A) colour for matplotlib (documented ambiguity)")
+        return "array", [float(v) for v in raw]
+    vals = interp(list(raw), arg, c)
+    if arg == "node_size":
+        vals = [v ** 2 for v in vals]
+    return "num", vals
+
+
+def draw_order(c, arg, vals):
+    """per-element values from view order into drawing order (polygons: larger first, by the argsort of the case)"""
+    if arg.startswith("edge") and c["cls"] == "hg" and "perm" in c:
+        return [vals[i] for i in reversed(c["perm"])]
+    return list(vals)
+
+
+def read_styles(c, nc, dc, ec):
+    """what matplotlib holds for the per-element style arguments of the case"""
+    def arr(x):
+        return None if x is None else [float(v) for v in np.ma.filled(np.ma.asarray(x, dtype=float), np.nan).ravel()]
+
+    def rows(x):
+        return [[round(float(v), 6) for v in row[:3]] for row in np.atleast_2d(np.asarray(x, dtype=float))] if len(x) else []
+    out = {}
+    for a, kind in c.get("style", {}).items():
+        if a in FLAGS or a == "edge_lw" or kind == "scalar":
+            continue
+        coll = nc if a.startswith("node") else dc if a.startswith("dyad") else ec
+        if coll is None:
+            continue
+        if a == "node_size":
+            out[a] = {"num": arr(coll.get_sizes())}
+        elif a in ("node_lw", "dyad_lw"):
+            out[a] = {"num": arr(np.atleast_1d(coll.get_linewidths()))}
+        elif a in ("node_fc", "edge_fc"):
+            out[a] = {"rgb": rows(coll.get_facecolors()), "array": arr(coll.get_array())}
+        elif a in ("node_ec", "edge_ec"):
+            out[a] = {"rgb": rows(coll.get_edgecolors())}
+        elif a == "dyad_color":
+            out[a] = {"rgb": rows(coll.get_colors()), "array": arr(coll.get_array())}
+    return out
+
+
+def close(a, b):
+    return abs(a - b) <= 1e-6 * max(1.0, abs(a), abs(b))
+
+
+def held_equals(kind, want, got, n):
+    """does element k hold want[k] for every k (matplotlib cycles shorter property lists)"""
+    g = got.get("rgb" if kind == "rgb" else "array" if kind == "array" else "num")
+    if n == 0:
+        return True
+    if not g:
+        return False
+    if kind == "rgb":
+        return all(all(close(x, y) for x, y in zip(want[k], g[k % len(g)])) for k in range(n))
+    return all(close(want[k], g[k % len(g)]) for k in range(n))
+
+
+def positional_reading(c, arg):
+    """the values a per-ID dict yields when it is read in ITS OWN order (the signature of the known defect):
+    colour arguments are first filtered to the plotted ids, the others are taken whole"""
+    items = dict_items(c, arg)
+    if arg in COLOUR_ARGS:
+        have = {json.dumps(i) for i in element_ids(c, arg)}
+        items = [p for p in items if json.dumps(p[0]) in have]
+    return [v for _, v in items]
+
+
+READ_BACK = Counter()   # (argument, shape) pairs whose per-element read-back was actually compared by the predicate
+
+
+def style_fails(c, r, drawn=None, count=False):
+    """per-element style arguments: element k must carry the value given for its id / position.
+    `drawn` (arg -> per-element raw values in DRAWING order; only these arguments are checked) defaults to what the
+    statement demands"""
+    fails = []
+    got_all = r.get("styles", {})
+    for arg, kind in c.get("style", {}).items():
+        if arg not in got_all or kind == "scalar":
+            continue
+        if c["cls"] == "sc" and not arg.startswith("node"):
+            continue  # the drawn edges of a complex are an internal hypergraph: order and ids are not public
+        if arg == "edge_ec" and kind == "stat":
+            continue  # mapped to colours by hand inside draw_hyperedges (ScalarMappable): not read back
+        if drawn is not None and arg not in drawn:
+            continue
+        raw = style_raw(c, arg)
+        if raw is None:
+            continue
+        n = len(raw)
+        try:
+            k_, want = render(c, arg, draw_order(c, arg, raw) if drawn is None else drawn[arg])
+        except (ValueError, TypeError):
+            continue
+        if count:
+            READ_BACK[f"read-back:{arg}:{kind}"] += 1
+        if held_equals(k_, want, got_all[arg], n):
+            continue
+        what = f"{arg} ({kind}): elements {element_ids(c, arg)} were given {raw}, i.e. in drawing order {want}; held {got_all[arg]}"
+        if kind in ("dict", "dictnum"):
+            sig = False
+            try:
+                kk, w2 = render(c, arg, positional_reading(c, arg))
+                if arg.startswith("edge"):
+                    w2 = draw_order(c, arg, w2) if len(w2) == n else None      # edge_fc[ids_sorted]
+                else:
+                    w2 = [w2[i % len(w2)] for i in range(n)] if w2 else None  # matplotlib cycles property lists
+                sig = w2 is not None and kk == k_ and held_equals(kk, w2, got_all[arg], n)
+            except (ValueError, TypeError, IndexError):
+                sig = False
+            fails.append(("per-id-style-by-position" if sig else "per-id-style-wrong-element", arg,
+                          what + (f" = the dict's values in the dict's own order {dict_items(c, arg)}" if sig else "")))
+        else:
+            fails.append(("style-wrong-element", arg, what))
+    return fails
 
 
 # ----------------------------------------------------------------------------- running the implementation
@@ -324,28 +540,35 @@ def impl_draw(c):
         if c["which"] != "draw_nodes":
             kw["hyperedge_labels"] = True
     which = c["which"]
-    fig, ax = plt.subplots()
+    plt.close("all")
+    if c.get("no_ax"):
+        fig = ax = None          # the default: `ax=None` -> the current axes (created on demand)
+    else:
+        fig, ax = plt.subplots()
+        kw["ax"] = ax
     try:
         with warnings.catch_warnings():
             warnings.simplefilter("ignore")
             if which == "draw":
-                _, (nc, dc, ec) = xgi.draw(H, pos=pos, ax=ax, max_order=c["max_order"], **kw)
+                rax, (nc, dc, ec) = xgi.draw(H, pos=pos, max_order=c["max_order"], **kw)
             elif which == "draw_nodes":
-                _, nc = xgi.draw_nodes(H, pos=pos, ax=ax, **kw)
+                rax, nc = xgi.draw_nodes(H, pos=pos, **kw)
                 dc = ec = None
             elif which == "draw_hyperedges":
-                _, (dc, ec) = xgi.draw_hyperedges(H, pos=pos, ax=ax, max_order=c["max_order"], **kw)
+                rax, (dc, ec) = xgi.draw_hyperedges(H, pos=pos, max_order=c["max_order"], **kw)
                 nc = None
             elif which == "draw_simplices":
-                _, (dc, ec) = xgi.draw_simplices(H, pos=pos, ax=ax, max_order=c["max_order"], **kw)
+                rax, (dc, ec) = xgi.draw_simplices(H, pos=pos, max_order=c["max_order"], **kw)
                 nc = None
             else:
                 raise AssertionError(which)
-            fig.canvas.draw()  # rendering must succeed as well
-        r = {"out": "ok", "ncoll": len(ax.collections),
+            same_ax = (rax is plt.gca() and len(plt.get_fignums()) == 1) if ax is None else (rax is ax)
+            ax = rax
+            ax.figure.canvas.draw()  # rendering must succeed as well
+        r = {"out": "ok", "ncoll": len(ax.collections), "same_ax": bool(same_ax),
              "attached": all(x is None or x in ax.collections for x in (nc, dc, ec))}
         if nc is not None:
-            r["markers"] = [pt(p) for p in np.asarray(nc.get_offsets())]
+            r["markers"] = [pt(p) for p in np.asarray(nc.get_offsets(), dtype=float)]
         if dc is not None:
             r["segments"] = [[pt(s[0]), pt(s[-1])] + ([] if len(s) == 2 else ["extra-points"]) for s in dc.get_segments()]
             r["polygons"] = []
@@ -354,11 +577,12 @@ def impl_draw(c):
                 if len(v) >= 2 and v[0] == v[-1]:
                     v = v[:-1]  # matplotlib closes the path with a copy of the first vertex (positions are distinct)
                 r["polygons"].append(v)
+        r["styles"] = read_styles(c, nc, dc, ec)
         return r
     except Exception as ex:  # noqa
         return {"out": "err:" + exc_name(ex), "msg": str(ex)[:200]}
     finally:
-        plt.close(fig)
+        plt.close("all")
 
 
 LAYOUT_FAMILY = {
@@ -471,61 +695,122 @@ def site_of(c):
     return c["which"] if c["f"] == "draw" else c["fn"] if c["f"] == "layout_keys" else "edge_positions_from_barycenters"
 
 
-def witness(c):
-    """witness pattern appended to the failure class of an exception: a complex with mixed int/str labels is the
-    pattern of the known format-detection defect; any other raising input is a different finding"""
-    kinds = {type(n).__name__ for n in c["H"]["nodes"]}
-    if c["cls"] == "sc" and {"int", "str"} <= kinds:
-        return "@mixed-label-complex"
-    if c["f"] == "draw" and c["cls"] == "hg" and c.get("style", {}).get("dyad_lw", "scalar") != "scalar" and not dyad_edges(c) \
-            and c.get("style", {}).get("rescale_sizes", True):
-        return "@empty-dyad-widths"
-    return ""
+HULL_RADIUS = 0.05   # default `radius` of draw_hyperedges(hull=True)
+
+
+def hull_problem(V, M, radius=HULL_RADIUS):
+    """V: vertices of a convex polygon (either orientation), M: the members' positions.  The hull of an edge is the convex
+    hull of the discs of `radius` around its members: every member lies inside with (almost) that margin, and every hull
+    vertex lies on one of the discs.  Returns None or (class, text)."""
+    if len(V) < 3:
+        return "hull-misses-member", f"hull with {len(V)} vertices"
+    area2 = sum(V[i][0] * V[(i + 1) % len(V)][1] - V[(i + 1) % len(V)][0] * V[i][1] for i in range(len(V)))
+    sgn = 1.0 if area2 >= 0 else -1.0
+    for P in M:
+        for i in range(len(V)):
+            A, B = V[i], V[(i + 1) % len(V)]
+            L = math.hypot(B[0] - A[0], B[1] - A[1])
+            if L == 0:
+                continue
+            d = sgn * ((B[0] - A[0]) * (P[1] - A[1]) - (B[1] - A[1]) * (P[0] - A[0])) / L
+            if d < 0.9 * radius:
+                return "hull-misses-member", f"member position {P} is not enclosed (distance {d:.4f} to the hull side {A}-{B})"
+    for v in V:
+        if min(math.hypot(v[0] - P[0], v[1] - P[1]) for P in M) > radius * (1 + 1e-6) + 1e-9:
+            return "hull-encloses-more", f"hull vertex {v} is farther than the radius from every member position {M}"
+    return None
+
+
+def plan_fails(c, r, exp):
+    """markers / lines / polygons read back vs. the plan demanded by the statement"""
+    fails = []
+    if "markers" in exp:
+        got = r.get("markers")
+        if got is None or sorted(got) != sorted(exp["markers"]):
+            fails.append(("marker-missing", f"markers {got} but node positions {exp['markers']}"))
+        elif got != exp["markers"]:
+            fails.append(("marker-order", f"markers {got} are not in node order {exp['markers']}"))
+    if "segments" in exp:
+        got = [sorted(s[:2]) for s in r["segments"]]
+        if any(len(s) != 2 for s in r["segments"]):
+            fails.append(("segment-wrong-endpoints", f"a line has more than two points: {r['segments']}"))
+        elif len(got) != len(exp["segments"]):
+            fails.append(("segment-count", f"{len(got)} lines for {len(exp['segments'])} two-node edges: {got} vs {exp['segments']}"))
+        elif sorted(got) != sorted(exp["segments"]):
+            fails.append(("segment-wrong-endpoints", f"lines {got}, two-node edges join {exp['segments']}"))
+        elif exp["ordered"] and got != exp["segments"]:
+            fails.append(("segment-order", f"lines {got} are not in edge order {exp['segments']}"))
+        if c.get("hull"):
+            want = [exp["polygons"][i] for i in reversed(c["perm"])]
+            if len(r["polygons"]) != len(want):
+                fails.append(("polygon-count", f"{len(r['polygons'])} hulls for {len(want)} qualifying edges"))
+            else:
+                for V, M in zip(r["polygons"], want):
+                    pb = hull_problem(V, M)
+                    if pb:
+                        fails.append((pb[0], f"hull of the edge at {M}: {pb[1]}"))
+                        break
+            return fails
+        gotp = [sorted(p) for p in r["polygons"]]
+        if len(gotp) != len(exp["polygons"]):
+            fails.append(("polygon-count", f"{len(gotp)} polygons for {len(exp['polygons'])} qualifying edges: {gotp} vs {exp['polygons']}"))
+        elif sorted(gotp) != sorted(exp["polygons"]):
+            fails.append(("polygon-vertex-set", f"polygons {gotp}, members' positions {exp['polygons']}"))
+        else:
+            if any(len(a) < len(b) for a, b in zip(gotp, gotp[1:])):
+                fails.append(("polygon-order", f"polygon sizes {[len(p) for p in gotp]} are not non-increasing"))
+            if exp["ordered"] and "perm" in c:
+                want = [exp["polygons"][i] for i in reversed(c["perm"])]
+                if gotp != want:
+                    fails.append(("polygon-order", f"polygons {gotp} are not the edges in argsort-by-size order {want}"))
+    return fails
+
+
+def finite_pt(p):
+    return all(isinstance(v, (int, float)) and math.isfinite(v) for v in p)
+
+
+def auto_pos_fails(c, r):
+    """pos=None: the layout is the implementation's own; what is drawn must still be the network — one finite marker per
+    node, and (taking the markers as the positions, k-th marker = k-th node) exactly the lines and polygons of the plan"""
+    nodes = c["H"]["nodes"]
+    pts = (r.get("markers") or []) + [p for s in r.get("segments", []) for p in s[:2]] + [p for poly in r.get("polygons", []) for p in poly]
+    if not all(finite_pt(p) for p in pts):
+        return [("auto-pos-nonfinite", f"non-finite coordinate among {pts}")]
+    if "markers" in r:
+        if len(r["markers"]) != len(nodes):
+            return [("marker-missing", f"{len(r['markers'])} markers for {len(nodes)} nodes")]
+        c2 = dict(c, pos=[[n, list(m)] for n, m in zip(nodes, r["markers"])])
+        return plan_fails(c2, r, expected_plan(c2))
+    # draw_hyperedges / draw_simplices alone: the positions are not observable; counts and polygon sizes are
+    c2 = dict(c, pos=[[n, [i, 0]] for i, n in enumerate(nodes)])
+    exp = expected_plan(c2)
+    fails = []
+    if len(r["segments"]) != len(exp["segments"]) or any(len(s) != 2 for s in r["segments"]):
+        fails.append(("segment-count", f"{len(r['segments'])} lines for {len(exp['segments'])} two-node edges"))
+    if sorted(len(p) for p in r["polygons"]) != sorted(len(p) for p in exp["polygons"]):
+        fails.append(("polygon-count", f"polygon sizes {[len(p) for p in r['polygons']]} for qualifying edges of sizes {[len(p) for p in exp['polygons']]}"))
+    return fails
 
 
 def pred(c, r):
     fails = []
     if c["f"] == "draw":
         if r["out"] != "ok":
-            return [("draw-raised:" + r["out"][4:] + witness(c), f"{c['which']} raised {r['out'][4:]}: {r.get('msg')}")]
-        if c.get("hull") or c.get("auto_pos"):
-            return fails  # hull drawing / the default layout only have to succeed
-        exp = expected_plan(c)
+            return [("draw-raised:" + r["out"][4:], f"{c['which']} raised {r['out'][4:]}: {r.get('msg')}")]
         want_coll = {"draw": 3, "draw_nodes": 1}.get(c["which"], 2)
-        if r["ncoll"] != want_coll or not r["attached"]:
-            fails.append(("collections", f"{r['ncoll']} collections on the axis (expected {want_coll}), returned ones attached: {r['attached']}"))
-        if "markers" in exp:
-            got = r.get("markers")
-            if got is None or sorted(got) != sorted(exp["markers"]):
-                fails.append(("marker-missing", f"markers {got} but node positions {exp['markers']}"))
-            elif got != exp["markers"]:
-                fails.append(("marker-order", f"markers {got} are not in node order {exp['markers']}"))
-        if "segments" in exp:
-            got = [sorted(s[:2]) for s in r["segments"]]
-            if any(len(s) != 2 for s in r["segments"]):
-                fails.append(("segment-wrong-endpoints", f"a line has more than two points: {r['segments']}"))
-            elif len(got) != len(exp["segments"]):
-                fails.append(("segment-count", f"{len(got)} lines for {len(exp['segments'])} two-node edges: {got} vs {exp['segments']}"))
-            elif sorted(got) != sorted(exp["segments"]):
-                fails.append(("segment-wrong-endpoints", f"lines {got}, two-node edges join {exp['segments']}"))
-            elif exp["ordered"] and got != exp["segments"]:
-                fails.append(("segment-order", f"lines {got} are not in edge order {exp['segments']}"))
-            gotp = [sorted(p) for p in r["polygons"]]
-            if len(gotp) != len(exp["polygons"]):
-                fails.append(("polygon-count", f"{len(gotp)} polygons for {len(exp['polygons'])} qualifying edges: {gotp} vs {exp['polygons']}"))
-            elif sorted(gotp) != sorted(exp["polygons"]):
-                fails.append(("polygon-vertex-set", f"polygons {gotp}, members' positions {exp['polygons']}"))
-            else:
-                if any(len(a) < len(b) for a, b in zip(gotp, gotp[1:])):
-                    fails.append(("polygon-order", f"polygon sizes {[len(p) for p in gotp]} are not non-increasing"))
-                if exp["ordered"] and "perm" in c:
-                    want = [exp["polygons"][i] for i in reversed(c["perm"])]
-                    if gotp != want:
-                        fails.append(("polygon-order", f"polygons {gotp} are not the edges in argsort-by-size order {want}"))
+        if r["ncoll"] != want_coll or not r["attached"] or not r.get("same_ax", True):
+            fails.append(("collections", f"{r['ncoll']} collections on the axis (expected {want_coll}), returned ones attached: {r['attached']}, "
+                                         f"drawn on the given / current axes: {r.get('same_ax')}"))
+        if c.get("auto_pos"):
+            fails += auto_pos_fails(c, r)
+        else:
+            fails += plan_fails(c, r, expected_plan(c))
+        fails += [(k, d) for k, _, d in style_fails(c, r, count=True)]
         return fails
     if c["f"] == "layout_keys":
         if r["out"] != "ok":
-            return [("layout-raised:" + r["out"][4:] + witness(c), f"{c['fn']}({c['cls']}) raised {r['out'][4:]}: {r.get('msg')}")]
+            return [("layout-raised:" + r["out"][4:], f"{c['fn']}({c['cls']}) raised {r['out'][4:]}: {r.get('msg')}")]
         if r["shape"] != "dict":
             return [("layout-return-shape", r["shape"])]
         nodes = c["H"]["nodes"]
@@ -608,8 +893,10 @@ def compare(c, r, m):
             if any(abs(v[i] - float(Fraction(w[i]))) > 1e-9 * max(1.0, abs(Fraction(w[i]))) for i in (0, 1)):
                 return False
         return True
-    if c.get("hull") or c.get("auto_pos"):
-        return True
+    if not model_styles_agree(c, r, m):
+        return False
+    if c.get("auto_pos"):
+        return True   # the positions are the implementation's own (random layout): the predicate has checked the plan
     if m["markers"] is not None or "markers" in r:
         if m["markers"] is None or r.get("markers") != [mpt(p) for p in m["markers"]]:
             return False
@@ -622,6 +909,10 @@ def compare(c, r, m):
     gotp = r["polygons"]
     if len(gotp) != len(polys) or len(got) != len(segs):
         return False
+    if c.get("hull"):
+        # the k-th hull encloses the members of the model's k-th polygon (and nothing away from them)
+        return got == segs and all(hull_problem(g, [[float(Fraction(x)) for x in p] for p in vs]) is None
+                                   for g, vs in zip(gotp, polys))
     if c["cls"] == "hg":
         if got != segs:
             return False
@@ -646,12 +937,34 @@ def compare(c, r, m):
     return True
 
 
+def sval(v):
+    """a style value of the model: int | "p/q" | {"col": name}"""
+    if isinstance(v, dict):
+        return v["col"]
+    return float(Fraction(v))
+
+
+def model_styles_agree(c, r, m):
+    """per-ID dicts: the model's value for the k-th marker / line / polygon (a) is the value the statement gives to that
+    element and (b), rendered, is what matplotlib holds — except where the predicate has already reported that the
+    implementation styles the wrong element (the model describes the repaired look-up by id)"""
+    ms = {a: [sval(v) for v in vals] for a, vals in m.get("styles", [])}
+    if sorted(ms) != sorted(a for a, _ in c.get("dicts", [])):
+        return False
+    for arg, vals in ms.items():
+        want = draw_order(c, arg, style_raw(c, arg))
+        if len(vals) != len(want) or any((a != b) if isinstance(a, str) or isinstance(b, str) else not close(a, b) for a, b in zip(vals, want)):
+            return False
+    reported = {a for _, a, _ in style_fails(c, r)}
+    return all(a in reported for _, a, _ in style_fails(c, r, drawn=ms))
+
+
 # ----------------------------------------------------------------------------- case generation
 
 MAX_ORDERS = [None, None, None, 0, 1, 2, 3, 6]
 
 
-def draw_case(rng, cls, enc, which=None, hull=None):
+def draw_case(rng, cls, enc, which=None, hull=None, no_ax=None, auto_pos=None):
     if which is None:
         which = rng.choice(["draw", "draw", "draw_nodes", "draw_hyperedges" if cls == "hg" else "draw_simplices"])
     c = {"f": "draw", "which": which, "cls": cls, "H": enc,
@@ -662,20 +975,27 @@ def draw_case(rng, cls, enc, which=None, hull=None):
         c["max_order"] = None  # draw_simplices(max_order=0) is `if max_order:` falsy: same call
     if cls == "hg" and which != "draw_nodes":
         c["perm"] = [int(i) for i in np.argsort([len(ms) for _, ms in poly_edges(c)])]
-        if (hull if hull is not None else rng.random() < 0.08) and which in ("draw", "draw_hyperedges"):
-            c["hull"] = True
+        if (hull if hull is not None else rng.random() < 0.12) and which in ("draw", "draw_hyperedges"):
+            c["hull"] = True     # read back: one hull per qualifying edge around exactly its members
     c["style"] = gen_style(rng, c)
+    dicts = gen_dicts(rng, c)
+    if dicts:
+        c["dicts"] = dicts
     r = rng.random()
-    if r < 0.05:
-        c["auto_pos"] = True    # pos=None: the default barycenter spring layout (success only)
-    elif r < 0.12 and "hull" not in c:
+    if (auto_pos if auto_pos is not None else r < 0.06) and "hull" not in c:
+        c["auto_pos"] = True    # pos=None: the default barycenter spring layout; the markers define the positions
+    elif r < 0.13 and "hull" not in c:
         c["labels"] = True      # node_labels / hyperedge_labels (success, and the plan is unchanged)
+    if no_ax if no_ax is not None else rng.random() < 0.2:
+        c["no_ax"] = True       # ax=None: the current axes (the default of every draw function)
     return c
 
 
-def layout_cases(rng, cls, enc, names):
+def layout_cases(rng, cls, enc, names, skip=()):
     out = []
     for name in names:
+        if any(k in name for k in skip):
+            continue
         c = {"f": "layout_keys", "fn": name, "cls": cls, "H": enc, "opts": layout_option_variants(rng, name)}
         fam = LAYOUT_FAMILY.get(name)
         if fam:
@@ -707,21 +1027,27 @@ def _fix(c):
     """recompute what depends on the network after a shrinking step"""
     c = json.loads(json.dumps(c))
     keep = {json.dumps(n) for n in c["H"]["nodes"]}
+    keep_e = {json.dumps(e) for e, _ in c["H"]["edges"]}
     if "pos" in c:
         c["pos"] = [p for p in c["pos"] if json.dumps(p[0]) in keep]
     if c["f"] == "draw" and "perm" in c:
         c["perm"] = [int(i) for i in np.argsort([len(ms) for _, ms in poly_edges(c)])]
+    if "dicts" in c:
+        c["dicts"] = [[a, [p for p in items if json.dumps(p[0]) in (keep if a.startswith("node") else keep_e)]] for a, items in c["dicts"]
+                      if a in c.get("style", {})]
     return c
 
 
-def shrink(c, cls_, budget=120):
+def shrink(c, cls_, budget=160):
     c = json.loads(json.dumps(c))
     changed = True
     while changed and budget > 0:
         changed = False
-        for k in list(c.get("style", {})) + list(c.get("opts", {})):
+        for k in list(c.get("style", {})) + list(c.get("opts", {})) + [f for f in ("labels", "hull", "no_ax", "auto_pos") if c.get(f)]:
             cand = json.loads(json.dumps(c))
-            (cand.get("style", {}).pop(k, None), cand.get("opts", {}).pop(k, None))
+            (cand.get("style", {}).pop(k, None), cand.get("opts", {}).pop(k, None), cand.pop(k, None) if k in ("labels", "hull", "no_ax", "auto_pos") else None)
+            if cand["f"] == "draw":
+                cand = _fix(cand)
             budget -= 1
             if fails_with(cand, cls_):
                 c, changed = cand, True
@@ -756,6 +1082,8 @@ def shrink(c, cls_, budget=120):
 def shrink_violations(ctx):
     for v in ctx.violations:
         if v["kind"] == "concrete" and isinstance(v["case"], dict) and v["case"].get("f") in ("draw", "layout_keys", "edge_positions"):
+            if is_known(ctx, v):
+                continue   # a listed finding is printed with its recorded replay; only unlisted violations are shrunk
             try:
                 small = shrink(v["case"], v["failure_class"])
                 d = [t for k, t in pred(small, impl(small)) if k == v["failure_class"]]
@@ -765,18 +1093,22 @@ def shrink_violations(ctx):
                 pass
 
 
-def pick_str():
-    """a one-letter label that a small set {7, s, ...} iterates first in this process (string hashes are randomised)"""
-    return next((x for x in "abcdefghijklmnopqrstuvwxyz" if hash(x) & 7 < 5), "a")
+CORPUS_LETTERS = "abcdef"
 
 
 def corpus_cases():
+    """minimised past failures.  A corpus file may use the placeholder "$S" for a one-letter string label that has to come
+    first when a small mixed set such as {7, s} is iterated; which letters do depends on the interpreter's string hashing
+    (./check derives PYTHONHASHSEED from VERIF_SEED), so the file is instantiated with each of a fixed list of letters —
+    the same cases in every process, whatever PYTHONHASHSEED is"""
     out = []
     for p in sorted(glob.glob(os.path.join(VERIF, "corpus", "C20", "*.json"))):
         try:
-            j = json.loads(open(p).read().replace('"$S"', json.dumps(pick_str())))
-            j = j["case"] if "case" in j else j
-            out += j if isinstance(j, list) else [j]
+            text = open(p).read()
+            for s_ in (CORPUS_LETTERS if '"$S"' in text else "a"):
+                j = json.loads(text.replace('"$S"', json.dumps(s_)))
+                j = j["case"] if "case" in j else j
+                out += j if isinstance(j, list) else [j]
         except Exception:  # noqa
             pass
     return [c for c in out if isinstance(c, dict) and c.get("f") in ("draw", "layout_keys", "edge_positions")]
@@ -796,9 +1128,15 @@ def run_cases(ctx, cases):
             for a, k in c.get("style", {}).items():
                 if isinstance(k, str) and k in KINDS:
                     ctx.stats[f"style:{a}:{k}"] += 1
-            for flag in ("hull", "auto_pos", "labels"):
+            for flag in ("hull", "auto_pos", "labels", "no_ax"):
                 if c.get(flag):
                     ctx.stats["draw:" + flag] += 1
+                    ctx.stats[f"draw:{flag}:{c['which']}"] += 1
+            for a, items in c.get("dicts", []):
+                ctx.stats["dict:shuffled" if [json.dumps(k) for k, _ in items] != [json.dumps(k) for k in element_ids(c, a)][:len(items)]
+                          or len(items) != len(element_ids(c, a)) else "dict:in-order"] += 1
+                if len(items) > len(element_ids(c, a)):
+                    ctx.stats["dict:all-edges"] += 1
         elif c["f"] == "layout_keys":
             ctx.stats[f"layout:{c['fn']}:{c['cls']}"] += 1
         kinds = {type(n).__name__ for n in c["H"]["nodes"]}
@@ -817,8 +1155,8 @@ def run_cases(ctx, cases):
 TRUSTED = TRUSTED_COMMON + [
     "matplotlib (Agg) keeps the offsets / segments / polygon vertices it is given and closes polygon paths with the first vertex; "
     "numpy mean/argsort/arctan2, networkx spring/Kamada-Kawai layouts (one position per graph node) as documented",
-    "the brute-force plan inside harness/props/c20.py (markers, two-node edges, qualifying edges, maximal simplices) and exact "
-    "float arithmetic on integer-grid coordinates",
+    "the brute-force plan inside harness/props/c20.py (markers, two-node edges, qualifying edges, maximal simplices; per-element style "
+    "values by id / position, the hull test) and exact float arithmetic on integer-grid coordinates",
 ]
 
 
@@ -841,40 +1179,56 @@ def make_cases(ctx, rng, n_nets, names, draws_per_net=3):
     for _ in range(n_nets):
         cls, nodes, edges = gen_net(rng)
         nets.append((cls, enc_real(build_from_spec(cls, nodes, edges))))
-    for cls, enc in nets:
+    for i, (cls, enc) in enumerate(nets):
         for _ in range(draws_per_net):
             cases.append(draw_case(rng, cls, enc))
+        if i < len(SPECIAL):
+            # every draw function with the default axes, with pos=None, and (hypergraphs) with hull=True, on every hand-picked network
+            for which in ("draw", "draw_nodes", "draw_hyperedges" if cls == "hg" else "draw_simplices"):
+                cases.append(draw_case(rng, cls, enc, which=which, no_ax=True, hull=False, auto_pos=False))
+                if i % 2 == 0:
+                    cases.append(draw_case(rng, cls, enc, which=which, no_ax=(i % 4 == 0), hull=False, auto_pos=True))
+                if cls == "hg" and which != "draw_nodes":
+                    cases.append(draw_case(rng, cls, enc, which=which, no_ax=(i % 4 == 1), hull=True, auto_pos=False))
         if rng.random() < 0.5:
             cases.append(edgepos_case(rng, cls, enc))
     # layouts: also networks without any edge of size >= 2 (isolated nodes only, singletons only, one node)
-    lay = [(cls, enc) for cls, enc in nets[: max(6, n_nets // 3)]]
+    lay = [(cls, enc) for cls, enc in nets[: max(6, n_nets // 4)]]
     for _ in range(max(3, n_nets // 8)):
         cls, nodes, edges = gen_net(rng, need_big=False)
         lay.append((cls, enc_real(build_from_spec(cls, nodes, edges))))
     lay.append(("hg", {"nodes": [4], "edges": []}))
     lay.append(("hg", {"nodes": ["a", 2, 7], "edges": [[0, ["a"]], [1, [7]]]}))
-    for cls, enc in lay:
-        cases += layout_cases(rng, cls, enc, names)
+    for i, (cls, enc) in enumerate(lay):
+        # Kamada-Kawai (an L-BFGS minimisation, ~10x the cost of the others) on every third network in the quick tier
+        cases += layout_cases(rng, cls, enc, names, skip=("kamada_kawai",) if ctx.quick and i % 3 and i < len(lay) - 2 else ())
     ctx.stats["networks"] += len(nets) + len(lay)
     return cases
 
 
 def run(ctx):
+    import time
+    t0 = time.time()
     ok = build_and_audit(ctx, "XgiModel.Props.C20", ["XgiModel.C20.Drive"])
+    ctx.extra["phase_seconds"] = {"build_and_audit": round(time.time() - t0, 1)}
     rng = ctx.rng
     names = layout_functions()
     ctx.extra["layout_functions"] = names
     ctx.rule = ("networks: 10 hand-picked + fn.gen_hypergraph (1-7 nodes, 0-7 edges of size 1-5; int/str/mixed/negative labels, shuffled; "
                 "explicit edge IDs; multi-edges, singleton edges, isolated nodes), as Hypergraph or as SimplicialComplex (add_simplex); draw "
                 "cases always have an edge with >= 2 nodes.  draw cases: which in draw/draw_nodes/draw_hyperedges|draw_simplices, positions "
-                "= distinct random points of the integer grid [-7,7]^2 (coinciding points only for draw_nodes / barycenters) as array/tuple/list, max_order in {None,0,1,2,3,6}, "
+                "= distinct random points of the integer grid [-7,7]^2 (coinciding points only for draw_nodes / barycenters) as array/tuple/list, the pos "
+                "dict listed in shuffled key order in 70%, max_order in {None,0,1,2,3,6}, "
                 "style arguments node_size/node_fc/node_lw/node_ec/dyad_color/dyad_lw/edge_fc/edge_ec each absent or scalar/dict/list/"
-                "array/stat/dict-of-numbers (per-element shapes only where elements exist), hull=True in 8% (success only).  layout cases: "
+                "array/stat/dict-of-numbers (per-element shapes only where elements exist); per-ID dicts are explicit in the case, in "
+                "shuffled order, for edge arguments of a hypergraph in 40% over all edge IDs; every per-element argument is read back "
+                "(sizes, widths, colours, colour-mapped arrays) per element; ax=None (current axes) in 20% and for every function on every "
+                "hand-picked network; hull=True in 12% (hulls read back); pos=None in 6% (plan checked against the markers).  layout cases: "
                 "every *_layout function of xgi.drawing.layout x option variants by signature, also on networks without edges.  "
                 "evaluations = calls of public functions; non-trivial = distinct (case, result) with an edge of >= 2 nodes and a successful call")
     cases = corpus_cases()
     ctx.stats["corpus_cases"] = len(cases)
-    cases += make_cases(ctx, rng, ctx.n(220, 2500), names, draws_per_net=ctx.n(3, 4))
+    cases += make_cases(ctx, rng, ctx.n(200, 2500), names, draws_per_net=ctx.n(3, 4))
     if not ctx.quick:
         n_ex = 0
         fixed = {0: [0, 0], 1: [4, 1], 2: [1, 5], 3: [-3, 2]}
@@ -895,8 +1249,10 @@ def run(ctx):
                                          "edges (at least one with >= 2 nodes), as Hypergraph and as SimplicialComplex, max_order in {None,1,2}, "
                                          "fixed integer positions, default style")
     dis = []
+    t0 = time.time()
     for i in range(0, len(cases), 5000):
         dis += run_cases(ctx, cases[i:i + 5000])
+    ctx.extra["phase_seconds"]["cases_and_driver"] = round(time.time() - t0, 1)
 
     def search():
         more = make_cases(ctx, rng, ctx.n(150, 1500), names)
@@ -909,18 +1265,24 @@ def run(ctx):
             for cls_, detail in pred(c, r):
                 ctx.violation(site_of(c), cls_, c, detail=detail)
 
+    t0 = time.time()
     conclude(ctx, ok, dis, search)
     shrink_violations(ctx)
+    ctx.extra["phase_seconds"]["search_and_shrink"] = round(time.time() - t0, 1)
+    ctx.extra["style_read_back"] = dict(sorted(READ_BACK.items()))   # includes re-evaluations while shrinking
     ctx.assumptions = [
         "labels int/str (bool/float/numpy-integer IDs outside the model); networks satisfy Net.WF (C01); a SimplicialComplex is closed under "
         "faces with >= 2 nodes and has no repeated or empty simplex (C03)",
         "drawing domain: at least one edge with >= 2 nodes; max_order None or >= 0; every node has a position; per-element style "
-        "arguments have one entry per drawn element and are only generated where at least one element exists",
+        "arguments have one entry per drawn element (per-ID dicts possibly more: one per edge) and are only generated where at least one "
+        "element exists; for a complex only node arguments are per-ID (the drawn edges are an internal hypergraph); rescaled sizes / "
+        "widths are compared with the documented interpolation between the min and max of the values handed over (np.interp), "
+        "colours with matplotlib.colors.to_rgba; a stat-valued edge_ec is not read back",
         "coordinates on an integer grid so that float arithmetic is exact; finite coordinates of random/spring/Kamada-Kawai/circular/spiral "
         "layouts are observed on the runs only",
         "np.argsort is an oracle: the harness passes numpy's permutation of the polygon sizes to the model, which checks that it is an argsort; "
         "polygon vertex order is compared with the exact angular order only when all angles differ",
-        "string hashes are randomised per process: which member of a mixed-label set comes first (this triggers the known format-detection "
-        "defect) varies between runs",
+        "string hashes are randomised per process (./check derives PYTHONHASHSEED from VERIF_SEED): which member of a mixed-label set "
+        "comes first varies with it; the generated cases themselves depend on VERIF_SEED only",
     ]
     return finish(ctx, trusted_base=TRUSTED)
